@@ -23,7 +23,7 @@ from . import vloop
 from .c02pipe import make_connector
 
 
-KINDS = ("flow", "timer", "upfail")
+KINDS = ("flow", "timer", "upfail", "early", "crlfcut")
 
 
 def blob(n, tag):
@@ -209,11 +209,209 @@ async def _run(case, obs):
         await runner.cleanup()
 
 
+async def _run_early(case, obs):
+    """the handler answers WITHOUT reading the (whole) request body while the upload is still in flight; then a
+    second, non-idempotent request goes out on the same session"""
+    import aiohttp
+    from aiohttp import web
+    n = case["n"]
+    body = blob(n, 9)
+    parts = [body[a:b] for a, b in split_sizes(n, case.get("writes") or [n])]
+    srv = obs["srv"] = {"reqs": []}
+    cli = obs["cli"] = {}
+
+    async def handler(request):
+        if request.path == "/echo":
+            data = await request.read()
+            srv["reqs"].append(("echo", len(data)))
+            return web.Response(body=data)
+        k = case.get("read", 0)
+        got = b""
+        if k:
+            got = await request.content.read(k)
+        srv["reqs"].append(("early", len(got)))
+        r = web.Response(status=case.get("status", 403), text="denied")
+        srv["resp"] = r
+        return r
+
+    app = web.Application(client_max_size=1 << 30)
+    app.router.add_route("*", "/{tail:.*}", handler)
+    kw = {}
+    if case.get("bufsize"):
+        kw["read_bufsize"] = case["bufsize"]
+    if case.get("lingering") is not None:
+        kw["lingering_time"] = case["lingering"]
+    runner = web.AppRunner(app, **kw)
+    await runner.setup()
+    conn = make_connector(runner.server, case.get("seg") or ["whole"], ["whole"])
+    loop = asyncio.get_running_loop()
+    try:
+        async with aiohttp.ClientSession(connector=conn, timeout=aiohttp.ClientTimeout(total=None)) as s:
+            rkw = {}
+            if case.get("source") == "agen":
+                async def gen():
+                    for p in parts:
+                        yield p
+                        if case.get("client_yield"):
+                            await asyncio.sleep(0)
+                data = gen()
+                if case.get("framing") == "length":
+                    rkw["headers"] = {"Content-Length": str(n)}
+            else:
+                data = body
+                if case.get("framing") == "chunked":
+                    rkw["chunked"] = True
+            try:
+                async with s.post("http://example.test/early", data=data, **rkw) as resp:
+                    cli["status"] = resp.status
+                    cli["version"] = list(resp.version)
+                    cli["conn_hdr"] = resp.headers.get("Connection")
+                    cli["text"] = await resp.text()
+            except BaseException as e:  # noqa
+                if isinstance(e, (KeyboardInterrupt, SystemExit)):
+                    raise
+                cli["exc"] = type(e).__name__
+            for _ in range(case.get("gap", 0)):
+                await asyncio.sleep(0)
+            cli["release"] = list(conn.release_log)
+            n0 = len(conn.pairs)
+            try:
+                async with s.post("http://example.test/echo", data=b"second") as r2:
+                    cli["second"] = (r2.status, await r2.read())
+            except BaseException as e:  # noqa
+                if isinstance(e, (KeyboardInterrupt, SystemExit)):
+                    raise
+                cli["second_exc"] = type(e).__name__
+            cli["second_new_conn"] = len(conn.pairs) - n0
+            for _ in range(30):
+                await asyncio.sleep(0)
+            ct, st = conn.pairs[0]
+            obs["first_conn"] = {"server_closed_it": st.closed_by == "self", "client_closed_it": ct.closed_by == "self",
+                                 "undelivered_to_server": len(st.buf)}
+            obs["wires"] = [(bytes(c.log), bytes(t.log)) for c, t in conn.pairs]
+            r = srv.get("resp")
+            obs["srv_keep_alive"] = None if r is None else bool(r.keep_alive)
+    finally:
+        await runner.cleanup()
+
+
+def oracle_early(ctx, case, obs):
+    V = lambda sig, detail: ctx.violation("C02/" + sig, case, detail)
+    cli, srv = obs.get("cli", {}), obs.get("srv", {})
+    fr = case.get("framing", "length")
+    tag = f"{fr}" + ("-lingering0" if case.get("lingering") == 0 else "")
+    if "exc" in cli:
+        V(f"response-lost/early-response-{tag}", f"handler answered {case.get('status', 403)} without reading the body; caller got {cli['exc']}")
+        return
+    if cli.get("status") != case.get("status", 403) or cli.get("text") != "denied":
+        V(f"response-differs/early-response-{tag}", f"caller saw {cli.get('status')} {cli.get('text')!r}")
+        return
+    rel = cli.get("release") or []
+    client_keeps = bool(rel) and not (rel[0]["force"] or rel[0]["arg"] or rel[0]["proto"])
+    announced_keep = cli.get("version") == [1, 1] and (cli.get("conn_hdr") or "").lower() != "close"
+    fc = obs.get("first_conn", {})
+    if announced_keep and client_keeps:
+        # the response said keep-alive and the client took it at its word: the server must keep the connection usable
+        broken = cli.get("second_exc") or cli.get("second") != (200, b"second")
+        if fc.get("server_closed_it") or broken or cli.get("second_new_conn"):
+            V(f"keepalive-not-honoured/early-response-{tag}",
+              f"handler answered without reading the {case['n']}-byte {fr} body (upload in {case.get('seg')}); the response announced keep-alive "
+              f"(resp.keep_alive={obs.get('srv_keep_alive')}, no Connection: close) and the client pooled the connection, but the server "
+              f"closed it={fc.get('server_closed_it')}; next request: {cli.get('second_exc') or cli.get('second')} "
+              f"(new connection: {cli.get('second_new_conn')}); requests seen by handlers: {srv.get('reqs')}")
+            return
+    if cli.get("second_exc") or cli.get("second") != (200, b"second"):
+        V(f"next-request-broken/early-response-{tag}",
+          f"announced keep-alive={announced_keep}, client kept={client_keeps}; next request: {cli.get('second_exc') or cli.get('second')}")
+
+
+MARK = "ZQZ"
+
+
+async def _run_crlfcut(case, obs):
+    """a start line / header line of exactly (or one below) the configured limit, with one cut exactly between
+    its CR and LF (or unsegmented, as control): the exchange must succeed exactly as unsegmented"""
+    import aiohttp
+    from aiohttp import web
+    L, where, direction = case["limit"], case["where"], case["dir"]
+    size = L - case.get("below", 0)
+    srv, cli = obs.setdefault("srv", {}), obs.setdefault("cli", {})
+    val = "v" * (size - len("X-Long: ") - len(MARK)) + MARK
+    path = "/" + "p" * (size - len("GET / HTTP/1.1") - len(MARK)) + MARK
+    reason = "R" * (size - len("HTTP/1.1 200 ") - len(MARK)) + MARK
+
+    async def handler(request):
+        srv["path"] = request.path
+        srv["hdr"] = request.headers.get("X-Long")
+        kw = {}
+        if direction == "down":
+            if where == "field":
+                kw["headers"] = {"X-Long": val}
+            else:
+                kw["reason"] = reason
+        return web.Response(text="ok", **kw)
+
+    app = web.Application()
+    app.router.add_route("*", "/{tail:.*}", handler)
+    skw, ckw = {}, {}
+    if L != 8190:
+        skw = {"max_line_size": L, "max_field_size": L}
+        ckw = {"max_line_size": L, "max_field_size": L}
+    runner = web.AppRunner(app, **skw)
+    await runner.setup()
+    if direction == "up":
+        marker = (MARK + "\r") if where == "field" else (MARK + " HTTP/1.1\r")
+    else:
+        marker = MARK + "\r"
+    seg = ["cutafter", marker.encode().hex()] if case.get("cut") else ["whole"]
+    conn = make_connector(runner.server, seg if direction == "up" else ["whole"], seg if direction == "down" else ["whole"])
+    try:
+        async with aiohttp.ClientSession(connector=conn, timeout=aiohttp.ClientTimeout(total=None), **ckw) as s:
+            try:
+                url = "http://example.test" + (path if (direction == "up" and where == "line") else "/x")
+                hdrs = {"X-Long": val} if (direction == "up" and where == "field") else None
+                async with s.get(url, headers=hdrs) as resp:
+                    cli["status"] = resp.status
+                    cli["reason"] = resp.reason
+                    cli["hdr"] = resp.headers.get("X-Long")
+                    cli["text"] = await resp.text()
+            except BaseException as e:  # noqa
+                if isinstance(e, (KeyboardInterrupt, SystemExit)):
+                    raise
+                cli["exc"] = type(e).__name__
+            obs["deliveries"] = [(c.deliveries, t.deliveries) for c, t in conn.pairs]
+    finally:
+        await runner.cleanup()
+    obs["expect"] = {"val": val, "path": path, "reason": reason}
+
+
+def oracle_crlfcut(ctx, case, obs):
+    V = lambda sig, detail: ctx.violation("C02/" + sig, case, detail)
+    cli, srv, ex = obs.get("cli", {}), obs.get("srv", {}), obs.get("expect", {})
+    where, direction = case["where"], case["dir"]
+    ok = cli.get("status") == 200 and cli.get("text") == "ok" and "exc" not in cli
+    if ok and direction == "up":
+        ok = (srv.get("hdr") == ex["val"]) if where == "field" else (srv.get("path") == ex["path"])
+    if ok and direction == "down":
+        ok = (cli.get("hdr") == ex["val"]) if where == "field" else (cli.get("reason") == ex["reason"])
+    if not ok:
+        what = "cut-between-cr-and-lf" if case.get("cut") else "unsegmented"
+        V(f"line-at-size-limit-rejected/{what}/{'request' if direction == 'up' else 'response'}-{where}",
+          f"{where} line of {case['limit'] - case.get('below', 0)} bytes (limit {case['limit']}), {what}: caller got "
+          f"{cli.get('exc') or cli.get('status')} {cli.get('text')!r}; handler saw path/header of length "
+          f"{len(srv.get('path') or '')}/{len(srv.get('hdr') or '')}")
+
+
 def run_case(case):
     obs = {}
 
     async def main():
-        await _run(case, obs)
+        if case["kind"] == "early":
+            await _run_early(case, obs)
+        elif case["kind"] == "crlfcut":
+            await _run_crlfcut(case, obs)
+        else:
+            await _run(case, obs)
     _, excs, quiescent = vloop.run(main)
     obs["quiescent"] = quiescent
     return obs
@@ -257,6 +455,10 @@ def pause_position(case, obs):
 
 
 def oracle(ctx, case, obs):
+    if case["kind"] == "early":
+        return oracle_early(ctx, case, obs)
+    if case["kind"] == "crlfcut":
+        return oracle_crlfcut(ctx, case, obs)
     V = lambda sig, detail: ctx.violation("C02/" + sig, case, detail)
     kind, direction = case["kind"], case.get("dir", "down")
     n = case["n"]
@@ -343,9 +545,54 @@ def boundary_flow(direction, buf, where):
             "seg": ["bodycuts", [cut]], "reader": {"mode": "readany", "first_sleep": 1.0}}
 
 
-def gen_cases(ctx):
+def gen_early(ctx):
     rng = ctx.rng
     out = []
+    for framing in ("length", "chunked"):
+        for source in ("bytes", "agen"):
+            for n, seg in ((4000, ["k", 500]), (70000, ["k", 1024]), (300000, ["k", 20000]), (3000, ["k", 1]) if not ctx.quick else (3000, ["k", 7])):
+                for read in (0, 100):
+                    for lingering in (None, 0):
+                        if lingering == 0 and (read or source == "agen"):
+                            continue
+                        c = {"kind": "early", "framing": framing, "source": source, "n": n, "seg": seg, "read": read,
+                             "status": rng.choice([401, 403, 413]), "gap": rng.choice([0, 0, 3, 50])}
+                        if source == "agen":
+                            c["writes"] = [max(1, n // 5)] * 5
+                            c["client_yield"] = rng.random() < 0.5
+                        if lingering is not None:
+                            c["lingering"] = lingering
+                        if n > 60000 and rng.random() < 0.5:
+                            c["bufsize"] = rng.choice([1024, 4096])
+                        out.append(c)
+    for _ in range(20 if ctx.quick else 400):
+        n = rng.choice([2000, 9000, 66000, 200000])
+        r = rng.random()
+        seg = ["k", rng.choice([64, 300, 1500, 9000])] if r < 0.6 else ["rand", rng.randrange(1 << 30), rng.choice([64, 700, 5000])]
+        c = {"kind": "early", "framing": rng.choice(["length", "chunked"]), "source": rng.choice(["bytes", "agen"]), "n": n,
+             "seg": seg, "read": rng.choice([0, 0, 1, 500]), "status": 403, "gap": rng.choice([0, 1, 10])}
+        if c["source"] == "agen":
+            k = rng.choice([2, 5, 9]); c["writes"] = [max(1, n // k)] * k; c["client_yield"] = rng.random() < 0.5
+        if rng.random() < 0.3:
+            c["bufsize"] = rng.choice([256, 1024, 4096])
+        out.append(c)
+    return out
+
+
+def gen_crlfcut(ctx):
+    out = []
+    for L in (8190, 200):
+        for direction in ("up", "down"):
+            for where in ("field", "line"):
+                for below in (0, 1):
+                    for cut in (True, False):
+                        out.append({"kind": "crlfcut", "limit": L, "dir": direction, "where": where, "below": below, "cut": cut})
+    return out
+
+
+def gen_cases(ctx):
+    rng = ctx.rng
+    out = gen_early(ctx) + gen_crlfcut(ctx)
     for direction in ("down", "up"):
         for buf in (BUFS if not ctx.quick else BUFS[:2]):
             for where in ("data", "crlf", "size"):
